@@ -82,6 +82,17 @@ pub fn determinism(name: &str, wasm: &[u8], out: &mut Vec<Json>) {
                 out.push(v("not-a-fixpoint", "C08", format!("{}: re-parsing walrus's own output and emitting again does not reproduce it ({} vs {} bytes; sections {:?} vs {:?})", name, a.len(), a2.len(), da.map(|x| x.sections), db.map(|x| x.sections)), wasm, crate::c03::hex(&a2), crate::c03::hex(&a))); },
             _ => out.push(v("own-output-rejected", "C08 C02", format!("{}: walrus cannot re-parse its own output", name), wasm, String::new(), String::new())) }
     }
+    // ... and so is the output of a module the GC pass has run on
+    if let Some(Some(g)) = catch(|| { let mut m = Module::from_buffer(wasm).ok()?; passes::gc::run(&mut m); Some(m.emit_wasm()) }) { fixpoint_of_output(&format!("{} (after gc)", name), wasm, &g, out); }
+}
+
+/// C08: walrus's own output - also of an EDITED module - is reproduced byte for byte by one more round trip
+pub fn fixpoint_of_output(what: &str, wasm: &[u8], output: &[u8], out: &mut Vec<Json>) {
+    match catch(|| { let mut m = Module::from_buffer(output).ok()?; Some(m.emit_wasm()) }) {
+        Some(Some(again)) => if again != output { let da = amod::decode(output).ok(); let db = amod::decode(&again).ok();
+            let which: Vec<String> = match (&da, &db) { (Some(a), Some(b)) => { let mut w = vec![]; if a.customs != b.customs { for (x, y) in a.customs.iter().zip(b.customs.iter()) { if x != y { w.push(format!("custom section `{}`", x.0)); } } } if a.sections != b.sections { w.push("section list".into()); } w } _ => vec![] };
+            out.push(v("not-a-fixpoint", "C08", format!("{}: re-parsing walrus's own output and emitting again does not reproduce it ({} vs {} bytes; differing: {:?})", what, output.len(), again.len(), which), wasm, crate::c03::hex(&again), crate::c03::hex(output))); },
+        _ => out.push(v("own-output-rejected", "C08 C02", format!("{}: walrus cannot re-parse its own output", what), wasm, String::new(), String::new())) }
 }
 
 /// C14: configuration switches.
@@ -140,6 +151,17 @@ pub fn config(name: &str, wasm: &[u8], out: &mut Vec<Json>) {
         let calls = Arc::new(AtomicUsize::new(0)); let c2 = calls.clone();
         let r = catch(|| { let mut c = ModuleConfig::new(); c.on_parse(move |_, _| { c2.fetch_add(1, Ordering::SeqCst); Ok(()) }); c.parse(&bytes).is_ok() });
         if let Some(ok) = r { let n = calls.load(Ordering::SeqCst); if (ok && n != 1) || (!ok && n != 0) { out.push(v("on-parse-call-count", "C14", format!("{}: parse callback ran {} times on a {} parse of a {} input", name, n, if ok { "successful" } else { "failed" }, label), &bytes, String::new(), String::new())); } }
+        // every other entry point that takes a configuration: from a buffer, from a file (both spellings)
+        let path = std::env::temp_dir().join(format!("vh-on-parse-{}-{}.wasm", std::process::id(), label.len()));
+        if std::fs::write(&path, &bytes).is_ok() {
+            for entry in 0..3u8 {
+                let calls = Arc::new(AtomicUsize::new(0)); let c2 = calls.clone(); let pth = path.clone(); let b2 = bytes.clone();
+                let r = catch(move || { let mut c = ModuleConfig::new(); c.on_parse(move |_, _| { c2.fetch_add(1, Ordering::SeqCst); Ok(()) });
+                    match entry { 0 => Module::from_buffer_with_config(&b2, &c).is_ok(), 1 => c.parse_file(&pth).is_ok(), _ => Module::from_file_with_config(&pth, &c).is_ok() } });
+                if let Some(ok) = r { let n = calls.load(Ordering::SeqCst); if (ok && n != 1) || (!ok && n != 0) { out.push(v("on-parse-call-count", "C14", format!("{}: parse callback ran {} times on a {} parse of a {} input through {}", name, n, if ok { "successful" } else { "failed" }, label, ["Module::from_buffer_with_config", "ModuleConfig::parse_file", "Module::from_file_with_config"][entry as usize]), &bytes, String::new(), String::new())); } }
+            }
+            let _ = std::fs::remove_file(&path);
+        }
     }
 }
 
@@ -247,14 +269,19 @@ pub fn emit_maps_after_import_added(name: &str, wasm: &[u8], out: &mut Vec<Json>
         if let Some(ty) = ty { m.add_import_func("added", "f", ty); }
         m.add_import_table("added", "t", false, 1, Some(2), RefType::Funcref);
         m.add_import_memory("added", "m", false, false, 1, Some(2), None);
-        m.add_import_global("added", "g", ValType::I32, false, false);
+        let (g, _) = m.add_import_global("added", "g", ValType::I32, false, false);
+        // the added entities carry debug names (C08 / C13: the name maps list them at their emitted index, in index order)
+        m.globals.get_mut(g).name = Some("added_global".into());
+        if let Some(t) = m.tables.iter().last().map(|t| t.id()) { m.tables.get_mut(t).name = Some("added_table".into()); }
+        if let Some(x) = m.memories.iter().last().map(|x| x.id()) { m.memories.get_mut(x).name = Some("added_memory".into()); }
         Some((ty.is_some(), crate::body::observe_module(m))) });
     match r { Some(Some((with_f, Ok(oo)))) => { let what = format!("{} (after importing a function, a table, a memory and a global through the API)", name);
             emit_maps(&what, wasm, &oo.module, &oo.em, &oo.aout, out);
             let b = &oo.aout;
             let got = ((n_imp(b, 0), b.funcs.len()), (n_imp(b, 1), b.tables.len()), (n_imp(b, 2), b.mems.len()), (n_imp(b, 3), b.globals.len()));
             let want = ((n_imp(&a, 0) + with_f as usize, a.funcs.len()), (n_imp(&a, 1) + 1, a.tables.len()), (n_imp(&a, 2) + 1, a.mems.len()), (n_imp(&a, 3) + 1, a.globals.len()));
-            if got != want { out.push(v("entities-duplicated-or-lost-after-import", "C19 C04 C02", format!("{}: (imported, local) counts of functions / tables / memories / globals are {:?}, expected {:?}", what, got, want), wasm, format!("{:?}", got), format!("{:?}", want))); } }
+            if got != want { out.push(v("entities-duplicated-or-lost-after-import", "C19 C04 C02", format!("{}: (imported, local) counts of functions / tables / memories / globals are {:?}, expected {:?}", what, got, want), wasm, format!("{:?}", got), format!("{:?}", want))); }
+            fixpoint_of_output(&what, wasm, &oo.out, out); }
         Some(Some((_, Err(e)))) => out.push(v("output-undecodable", "C02 C19", format!("{}: after importing entities through the API the emitted module cannot be decoded: {}", name, e), wasm, String::new(), String::new())),
         Some(None) => {}, None => out.push(v("walrus-panics-on-valid-module", "C02 C19", format!("{}: importing entities through the API then emitting panics", name), wasm, String::new(), String::new())) }
 }
